@@ -13,6 +13,7 @@ RULE = ('generated valid documents of two feature-rich schema families (shop: fa
         'identity faults, XMLSchema10 and XMLSchema11, ElementTree and lxml trees; plus corpus instances (valid and invalid) '
         'for the path claim only; a case = (family, document, fault); distinct non-trivial = distinct (family, fault kind, '
         'depth, tag of the damaged node) combinations at depth >= 1')
+RULE += (' ' + 'Shard laxwrap: faults in declared elements below undeclared wrappers admitted by a lax wildcard.')
 ASSUMPTIONS = [
     'faults are invalid by construction and never touch key / ID bearing values (a change there is legitimately reported at the referring node)',
     'the damaged node of an inserted or misplaced child is that child; its container and the container\'s parent are accepted locations',
